@@ -98,6 +98,7 @@ def main():
     bounded_units = []
     bounded_run = bounded_ok = 0
     bounded_not_completed = []
+    other_prop_failures = []
 
     try:
         # ---- frame checks (syntactic side conditions the contracts rely on) ----
@@ -126,7 +127,13 @@ def main():
             n_fn = r.get("verified", 0) + r.get("errors", 0)
             obligations += n_fn
             failed_fns_mine = set(f["fn"] for f in mine)
-            discharged += n_fn - len(failed_fns_mine) if not r["undecided"] else r.get("verified", 0)
+            # a function whose failed obligation belongs to ANOTHER property (e.g. a known finding of C02 inside `parse`) is not an alarm
+            # here, but it is not counted as discharged either
+            failed_fns_all = set(f["fn"] for f in r["failures"])
+            for f in r["failures"]:
+                if f["fn"] not in failed_fns_mine:
+                    other_prop_failures.append("%s: %s (attributed to %s)" % (uname, f["obligation"], ",".join(f.get("props") or unit["properties"])))
+            discharged += n_fn - len(failed_fns_all) if not r["undecided"] else r.get("verified", 0)
             solver_ms += r.get("smt_ms") or 0
             functions += [dict(f, unit=uname, engine="verus") for f in r.get("functions", [])]
             clause_samples += ["%s: %s %s [%s]: %s" % (uname, c["fn"], c["kind"], c["label"], " ".join(c["text"].split())[:160]) for c in r.get("clause_list", [])]
@@ -243,6 +250,7 @@ def main():
                        "functions_verified": r.get("verified"), "slowest": sorted([(f["function"], f["ms"]) for f in r.get("function_breakdown", [])], key=lambda x: -x[1])[:3]} for r in unit_results],
             "not_decided": cfg.get("not_decided", []),
             "known_findings_hit": [k["what"] for k, _ in known_hits],
+            "failed_obligations_attributed_to_other_properties": sorted(set(other_prop_failures)),
             "unit_results_reused_from_cache": [r["unit"] for r in unit_results if r.get("cache_hit")],
             "cache_note": "Verus unit verdicts are cached by the SHA-256 of the assembled file (it contains the code extracted from the repo on this run); a hit means the identical text was verified earlier in this sandbox",
             "undecided": undecided,
@@ -257,7 +265,8 @@ def main():
     os.makedirs(evdir, exist_ok=True)
     with open(os.path.join(evdir, "%s.json" % prop), "w") as f:
         json.dump(ev, f, indent=1)
-    print("%s: %d/%d obligations discharged%s, %d violations, %d known findings, %d undecided, %.1fs" % (prop, discharged, obligations, (" (+%d/%d bounded stand-ins passed)" % (bounded_ok, bounded_run)) if bounded_run else "", len(violations), len(known_hits), len(undecided), wall))
+    print("%s: %d/%d obligations discharged%s, %d violations, %d known findings, %d undecided%s, %.1fs" % (prop, discharged, obligations, (" (+%d/%d bounded stand-ins passed)" % (bounded_ok, bounded_run)) if bounded_run else "", len(violations), len(known_hits), len(undecided),
+          (", %d failed obligation(s) belong to other properties" % len(set(other_prop_failures))) if other_prop_failures else "", wall))
     return rc
 
 
